@@ -1,11 +1,11 @@
-\* thorough: every sequence of up to 3 distinct specs, offsets 0..9
+\* thorough: every sequence of up to 3 distinct specs, offsets 0..7
 SPECIFICATION Spec
 CONSTANTS
   LogArch = 5
   LogUnit = 2
   LogGlobalRatio = 1
   LogLocalRatio = 1
-  MaxOff = 9
+  MaxOff = 7
   MaxSpecs = 3
 INVARIANTS
   OverlapIsIntersection
